@@ -121,7 +121,7 @@ func c06Validator(p *Prog, c *Check, fl sigFlavour, accept string) {
 		want := ParseAtomPat("CheckSignature(" + ctorPat + "#0, $e." + fl.sigField + "[$i], GetSubset($ks, $e.SignerIndices)#0[$i])#0 == true")
 		okLoop := p.forallBefore(fn, r, acceptConds(accept), nil, 0, func(lc loopCtx) bool {
 			lb := copyBinds(b)
-			if !ParsePat("len($e." + fl.sigField + ")").Match(lc.bound(), lb) {
+			if !ParsePat("len($e."+fl.sigField+")").Match(lc.bound(), lb) {
 				return false
 			}
 			lb["i"] = lc.loop.Idx
